@@ -16,7 +16,8 @@ EXTENDS Integers, Sequences, FiniteSets, TLC
 
 VARIABLE c
 
-CPs == {0, 65, 127, 128, 255, 256, 2047, 2048, 65533, 65535, 65536, 1114111}
+\* 65279 = U+FEFF: as a character it is text like any other (only a codec's own signature is dropped)
+CPs == {0, 65, 127, 128, 255, 256, 2047, 2048, 65279, 65533, 65535, 65536, 1114111}
 Encs == {"utf-8", "utf-16", "latin-1", "ascii"}
 Policies == {"strict", "ignore", "replace"}
 
